@@ -506,5 +506,44 @@ func run(c *mon.Ctx) {
 			setPayload(c, &a, r.Intn(201), r)
 		}
 	})
+	// the helpers and accessors work on the packet they are given / return, whoever else is using them at that moment
+	c.Floor("concurrent.calls", 20000)
+	c.Stream("concurrent-callers", c.N(3, 150), func(i int, r *gen.Rand) {
+		c.Concurrent("creation helpers / SetPayload / Payload", 8, 1500, r, func(q *gen.Rand) string {
+			pid, cc := q.Intn(8192), uint8(q.Intn(16))
+			pusi, hasPay := q.Bool(), q.Bool()
+			p := packet.CreateTestPacket(pid, cc, pusi, hasPay)
+			if p == nil || p[0] != 0x47 || p.PID() != pid || p.ContinuityCounter() != int(cc) || p.HasPayload() != hasPay {
+				return fmt.Sprintf("CreateTestPacket(pid=%d, cc=%d, pusi=%v, hasPay=%v) does not carry the requested sync/PID/counter/flags", pid, cc, pusi, hasPay)
+			}
+			pay := q.Bytes(1 + q.Intn(184))
+			p2 := packet.CreatePacketWithPayload(pid, cc, pay)
+			got, err := packet.Payload(p2)
+			if p2 == nil || p2[0] != 0x47 || p2.PID() != pid || err != nil || len(got) < len(pay) || !bytes.Equal(got[:len(pay)], pay) {
+				return fmt.Sprintf("CreatePacketWithPayload(pid=%d, %d bytes) does not carry the requested PID/payload", pid, len(pay))
+			}
+			if d := packet.CreateDCPacket(pid, cc); d == nil || d.PID() != pid || d.ContinuityCounter() != int(cc) {
+				return fmt.Sprintf("CreateDCPacket(pid=%d, cc=%d) does not carry the requested PID/counter", pid, cc)
+			}
+			m := ref.GenTSPacket(q, 3, q.Intn(183))
+			pk := packet.Packet(m.Bytes())
+			data := q.Bytes(q.Intn(190))
+			capa := 183
+			if m.L > 0 {
+				capa -= m.AF.Size()
+			}
+			k := len(data)
+			if k > capa {
+				k = capa
+			}
+			n, err := pk.SetPayload(data)
+			back, err2 := pk.Payload()
+			if err != nil || n != k || err2 != nil || !bytes.Equal(back, data[:k]) || pk[0] != 0x47 || pk.PID() != int(m.Hdr[1]&0x1f)<<8|int(m.Hdr[2]) {
+				return fmt.Sprintf("SetPayload(%d bytes) on a packet with capacity %d stored %d (%v) and reads back %d bytes (%v)", len(data), capa, n, err, len(back), err2)
+			}
+			return ""
+		})
+		c.Class("concurrent-callers")
+	})
 	c.Stream("creation", c.N(5000, 4000000), func(i int, r *gen.Rand) { creation(c, r) })
 }
